@@ -181,7 +181,7 @@ func callsTaggedPrecondition(p *Program, key, prop string) bool {
 	return scan(fn, 0)
 }
 
-func runProperty(p *Program, prop string, budget int) *propRun {
+func runProperty(p *Program, prop string, budget int, known map[string]bool) *propRun {
 	t0 := time.Now()
 	pr := &propRun{prop: prop, summaries: map[string]*oblSummary{}}
 	keys := selectFunctions(p, prop)
@@ -227,6 +227,14 @@ func runProperty(p *Program, prop string, budget int) *propRun {
 			defer wg.Done()
 			defer func() { <-sem }()
 			if j.ob.pre {
+				return
+			}
+			if known[j.ob.Name] {
+				// a recorded, unrepaired defect: one short attempt (it is reported as KNOWN-FINDING
+				// unless it discharges, i.e. unless the defect has been repaired)
+				r := solve(j.rep.exec.buildQuery(j.ob.node), 3, false)
+				j.ob.result = r
+				j.ob.status = r.Status
 				return
 			}
 			r := j.rep.exec.solveObligation(j.ob.node, budget)
@@ -282,7 +290,7 @@ func cmdBaseline(cfg Config) int {
 		return 2
 	}
 	b := &Baseline{Props: map[string]map[string]int64{}}
-	pr := runProperty(p, "", 30)
+	pr := runProperty(p, "", 30, nil)
 	for _, rep := range pr.reports {
 		if rep.Aborted != "" {
 			fmt.Printf("ABORTED %s: %s\n", rep.Key, rep.Aborted)
@@ -353,15 +361,17 @@ func cmdCheck(cfg Config, prop, tier string) int {
 		fmt.Printf("VIOLATION property=%s replay=%s no-failing-input-found\n", prop, rp)
 		return 1
 	}
-	pr := runProperty(p, prop, budgetFor(tier))
 	findings := loadFindings(cfg)
 	base := loadBaseline(cfg).Props[prop]
 	known := map[string]Finding{}
+	knownNames := map[string]bool{}
 	for _, f := range findings {
 		if f.Property == prop && f.Status == "known" {
 			known[f.Obligation] = f
+			knownNames[f.Obligation] = true
 		}
 	}
+	pr := runProperty(p, prop, budgetFor(tier), knownNames)
 	violations := 0
 	discharged := 0
 	var undecided []string
